@@ -453,7 +453,7 @@ def check_patterns(ctx, label, key0, posted, n, edges, pats, oracle, desc, spec_
             spec_rows.append((n, edges, bits))
         if got != want:
             key = "%s:%s:%s" % (label, key0, bits)
-            if label.startswith("path") and not any(pat):
+            if "path" in label and not any(pat):
                 key = "path:empty-edge-set"
             ctx.violation(key, "%s: posted constraints are %s for an edge subset that %s" % (
                 label, "satisfiable" if got else "unsatisfiable", "is not admitted" if got else "must be admitted"),
